@@ -7,7 +7,7 @@ From Coq Require Import ZArith List Bool Lia.
 From Segno Require Import Base.PyLite Base.PySem Base.PySemSeg Base.PySemGlue Base.PySemApi Ref.IsoData Model.Bits Model.Segment
   Model.Version Model.Stream Model.Matrix Model.Encode Model.Color Model.Args.
 From Segno Require Import Tie.TieBase Tie.TieSegments Tie.TieNorm Tie.TieEncodeFinal Tie.TieEncodeTop Tie.TieMaskScores Tie.TieApiQr.
-From SegnoSrc Require SrcMaskScores SrcEncodeTop SrcApiQr.
+From SegnoSrc Require SrcMaskScores SrcEncodeTop SrcSeqBody SrcApiQr.
 Import ListNotations.
 Open Scope Z_scope.
 
@@ -93,7 +93,17 @@ Section MakeModel.
   Proof. intros Hn He Hm. rewrite src_make_bytes_is_model by assumption. now rewrite Hm. Qed.
 End MakeModel.
 
+(* make_sequence with the parameter ext_encode_sequence instantiated by the TRANSLATED encode_sequence (build/gen/SrcSeqBody.v,
+   gen/translate_seqbody.py, DESIGN.md 11.19; its bridge to Model/Sequence.v is Tie/TieSeqBody.v): the types fit, `eci` is False *)
+Theorem src_make_sequence_bytes_translated ext_eci ext_eval content error version mode mask encoding boost_error symbol_count :
+  SrcApiQr.src_make_sequence_bytes (SrcSeqBody.src_encode_sequence ext_eci ext_eval) content error version mode mask encoding
+    boost_error symbol_count
+  = do codes <- SrcSeqBody.src_encode_sequence ext_eci ext_eval content error version mode mask encoding false boost_error symbol_count;
+    pya_map_res SrcApiQr.src_QRCode_init codes.
+Proof. apply src_make_sequence_bytes_spec. Qed.
+
 Print Assumptions src_make_bytes_is_model.
+Print Assumptions src_make_sequence_bytes_translated.
 Print Assumptions src_make_items_is_model.
 Print Assumptions src_make_qr_bytes_is_model.
 Print Assumptions src_make_micro_bytes_is_model.
